@@ -194,12 +194,33 @@ func worker(args []string) int {
 		snap := ts.Snapshot()
 		rf := &replayFile{Property: id, VerifSeed: seed, RunIndex: i, RunSeed: rs, Tier: string(tier), Class: cls, Msg: res.Violation.Msg, Tapes: snap, Scenario: res.Scenario, Excerpt: res.Excerpt}
 		// minimise: same violation class at the same oracle
-		small, used := tape.Shrink(snap, ck.RecordWidths(), shrinkBudget, func(c map[string][]uint64) bool {
+		inProc := func(c map[string][]uint64) (*checks.Result, bool) {
 			r := ck.Run(tape.FromSnapshot(rs, c), tier)
-			return r.Violation != nil && r.Violation.Class == cls
-		})
-		r2 := ck.Run(tape.FromSnapshot(rs, small), tier)
-		if r2.Violation != nil && r2.Violation.Class == cls {
+			return r, r.Violation != nil && r.Violation.Class == cls
+		}
+		isRace := strings.Contains(cls, "/data-race@")
+		budget := shrinkBudget
+		pred := func(c map[string][]uint64) bool { _, ok := inProc(c); return ok }
+		if isRace {
+			// the race detector reports each racing stack pair once per
+			// process, so candidates are judged in fresh processes
+			budget = shrinkBudget / 5
+			pred = func(c map[string][]uint64) bool {
+				return replayInSubprocess(id, rs, seed, i, tier, cls, c, out)
+			}
+		}
+		small, used := tape.Shrink(snap, ck.RecordWidths(), budget, pred)
+		var r2 *checks.Result
+		ok2 := false
+		if isRace {
+			ok2 = replayInSubprocess(id, rs, seed, i, tier, cls, small, out)
+			// the minimised scenario is re-decoded by the fresh-process replay
+			// that the master performs; keep the original description here
+			r2 = &checks.Result{Violation: res.Violation, Scenario: map[string]any{"note": "scenario of the un-minimised run; replay the file to see the minimised one", "original": res.Scenario}, Excerpt: res.Excerpt}
+		} else {
+			r2, ok2 = inProc(small)
+		}
+		if ok2 {
 			rf.Original = snap
 			rf.Tapes = small
 			rf.Minimised = true
@@ -218,7 +239,11 @@ func worker(args []string) int {
 		wo.Violations = append(wo.Violations, path)
 		wo.Classes = append(wo.Classes, cls)
 		wo.Msgs = append(wo.Msgs, rf.Msg)
-		if len(wo.Violations) >= 4 {
+		if len(wo.Violations) >= 4 || isRace {
+			// after a race report the detector's per-process de-duplication
+			// makes further verdicts in this process unreliable (and report
+			// symbolisation is slow): stop this worker here
+			wo.Extra["runs_not_executed_after_race_report"] += (N - i - 1) / W
 			break
 		}
 	}
@@ -234,6 +259,22 @@ func worker(args []string) int {
 	return exitOK
 }
 
+// replayInSubprocess judges one candidate tape set in a fresh process.
+func replayInSubprocess(id string, rs, seed uint64, i int, tier checks.Tier, cls string, c map[string][]uint64, out string) bool {
+	rf := &replayFile{Property: id, VerifSeed: seed, RunIndex: i, RunSeed: rs, Tier: string(tier), Class: cls, Tapes: c}
+	b, _ := json.Marshal(rf)
+	p := out + ".cand.json"
+	if err := os.WriteFile(p, b, 0o644); err != nil {
+		return false
+	}
+	defer os.Remove(p)
+	self, _ := os.Executable()
+	cmd := exec.Command(self, "replay", id, p)
+	cmd.Env = append(os.Environ(), "VERIF_REPLAY_WANT_CLASS="+cls)
+	o, _ := cmd.CombinedOutput()
+	return cmd.ProcessState != nil && cmd.ProcessState.ExitCode() == exitViolation && strings.Contains(string(o), "class: "+cls+"\n")
+}
+
 func trim(s string, n int) string {
 	if len(s) > n {
 		return s[:n]
@@ -244,6 +285,23 @@ func trim(s string, n int) string {
 // ---------------------------------------------------------------- replay
 
 func replay(id, path string) int {
+	if checks.RaceBuild() && !strings.Contains(os.Getenv("GORACE"), "log_path=") {
+		// the race detector's reports must go to a file this process can read
+		// back; GORACE is only honoured at process start, so re-exec
+		dir, err := os.MkdirTemp("", "verif-race-")
+		if err == nil {
+			self, _ := os.Executable()
+			cmd := exec.Command(self, os.Args[1:]...)
+			cmd.Env = append(os.Environ(), "GORACE=halt_on_error=0 exitcode=0 log_path="+filepath.Join(dir, "race"))
+			cmd.Stdout, cmd.Stderr = os.Stdout, os.Stderr
+			_ = cmd.Run()
+			os.RemoveAll(dir)
+			if cmd.ProcessState != nil {
+				return cmd.ProcessState.ExitCode()
+			}
+			return exitHarness
+		}
+	}
 	ck, ok := checks.Get(id)
 	if !ok {
 		fmt.Fprintln(os.Stderr, "unknown check", id)
@@ -349,7 +407,7 @@ func master(id string, tier checks.Tier) int {
 		go func(w int) {
 			outp := filepath.Join(tmp, fmt.Sprintf("w%d.json", w))
 			cmd := exec.Command(self, "worker", id, string(tier), strconv.FormatUint(seed, 10), strconv.Itoa(w), strconv.Itoa(W), strconv.Itoa(N), outp)
-			cmd.Env = append(os.Environ(), "GOMAXPROCS=2")
+			cmd.Env = append(os.Environ(), "GOMAXPROCS=2", "GORACE=halt_on_error=0 exitcode=0 log_path="+filepath.Join(tmp, fmt.Sprintf("race-w%d", w)))
 			b, err := cmd.CombinedOutput()
 			code := 0
 			if cmd.ProcessState != nil {
